@@ -126,7 +126,8 @@ class Mon(Monitor):
                     (c.close_req is not None and c.close_step < w.step) or (c.lost and c.lost_step < w.step):
                 continue
             for r in w.reqs:
-                if r.kind in PKT and r.addr == c.addr and r.msgId == p['msgId'] and p['type'] == ACK[r.kind] and \
+                if r.kind in PKT and r.addr == c.addr and p.get('msgId') is not None and r.msgId == p.get('msgId') and \
+                        p['type'] == ACK[r.kind] and \
                         r.ret == 'deferred' and r.call_step < w.step and not any(f[0] < w.step for f in r.fires) and \
                         any(t[1] == ci and t[0] < w.step for t in r.tx) and not r.fires:
                     out.append(V('fire', 'matching-ack-ignored/%s' % r.kind,
